@@ -487,6 +487,8 @@ impl Env {
 
 #[derive(Debug)]
 struct EamCall {
+    /// 0: the top-level message itself is the EAM call
+    depth: u32,
     from: u64,
     method: u64,
     ok: bool,
@@ -496,14 +498,18 @@ struct EamCall {
 
 /// EAM calls of a message in execution order, skipping everything inside rolled-back frames
 fn eam_calls(t: &InvocationTrace, out: &mut Vec<EamCall>) {
+    eam_calls_at(t, 0, out)
+}
+
+fn eam_calls_at(t: &InvocationTrace, depth: u32, out: &mut Vec<EamCall>) {
     let ok = t.exit_code.is_success();
     if t.to == EAM_ACTOR_ADDR && (2..=4).contains(&t.method) {
         let ret = if ok { t.return_value.as_ref().and_then(|r| r.deserialize().ok()) } else { None };
-        out.push(EamCall { from: t.from, method: t.method, ok, params: t.params.clone(), ret });
+        out.push(EamCall { depth, from: t.from, method: t.method, ok, params: t.params.clone(), ret });
     }
     if ok {
         for s in &t.subinvocations {
-            eam_calls(s, out);
+            eam_calls_at(s, depth + 1, out);
         }
     }
 }
@@ -890,7 +896,11 @@ fn perform(env: &mut Env, act: &Act, before: &Proj) -> Done {
     match act {
         Act::Exec { caller, code, good } => {
             let params = fil_actor_init::ExecParams { code_cid: code_cid(code), constructor_params: ctor_params(env, code, *good, InitKind::Empty) };
-            let sent = env.send(caller, &INIT_ACTOR_ADDR, &zero, fil_actor_init::Method::Exec as u64, IpldBlock::serialize_cbor(&params).unwrap());
+            // a miner's constructor locks a creation deposit: pay for it when the caller can
+            let caller_id = env.w.vm.resolve_id_address(caller).and_then(|a| a.id().ok());
+            let rich = caller_id.and_then(|i| before.acts.get(&i)).map(|a| a.balance >= TokenAmount::from_whole(100)).unwrap_or(false);
+            let value = if *code == "miner" && rich { TokenAmount::from_whole(100) } else { zero.clone() };
+            let sent = env.send(caller, &INIT_ACTOR_ADDR, &value, fil_actor_init::Method::Exec as u64, IpldBlock::serialize_cbor(&params).unwrap());
             let ctor = match sent.trace.as_ref().and_then(ctor_status) {
                 Some(false) => "fail",
                 _ => "ok",
@@ -1328,6 +1338,23 @@ fn oracle(env: &Env, act: &Act, d: &Done, before: &Proj, after: &Proj) -> V {
             }
         }
     }
+    // -- deployer nonce, from the trace: every contract ends with (1 if it was (re-)initialised in
+    //    this message, else its old nonce) + the number of Create/Create2 calls it made to the EAM
+    //    in committed frames, whether those calls succeeded or not
+    if ok {
+        for (id, a) in &after.acts {
+            if a.kind != "evm" {
+                continue;
+            }
+            let made = d.calls.iter().filter(|c| c.depth > 0 && c.from == *id && (c.method == 2 || c.method == 3)).count() as u64;
+            let reinit = d.calls.iter().any(|c| c.ok && c.ret.as_ref().map(|r| r.actor_id) == Some(*id))
+                || before.acts.get(id).map(|b| b.kind != "evm").unwrap_or(true);
+            let base = if reinit { 1 } else { before.acts[id].nonce };
+            if a.nonce != base + made {
+                return viol("deployer-nonce-rule", format!("contract {}: nonce {} expected {} + {} EAM calls", id, a.nonce, base, made));
+            }
+        }
+    }
     // -- deployer nonce: one per CREATE/CREATE2 that passed the endowment check, kept on failure
     if let Act::AgentCreate { agent, mode, endow, value, .. } = act {
         if let (Some(b), Some(a)) = (before.acts.get(agent), after.acts.get(agent)) {
@@ -1434,6 +1461,10 @@ pub fn run(cfg: &RunCfg) -> Report {
             env.fresh_log = vec![100, 101, 102];
         }
         rep.sequences += 1;
+        {
+            let f = env.w.apply_raw(&TEST_FAUCET_ADDR, &STORAGE_POWER_ACTOR_ADDR, &TokenAmount::from_whole(1000), METHOD_SEND, None);
+            assert!(f.ok());
+        }
         // accounts (auto-created by sends from the faucet)
         let keys = vm_api::util::pk_addrs_from(seq.wrapping_mul(31).wrapping_add(cfg.seed), 3);
         let len = r.range(8, maxlen) as u64;
